@@ -21,6 +21,7 @@ EXPLANATION = (
     ' (R07.10) the measurement a box / point contributes is the same vector of plain coordinates at initiate, update and distance (contradiction rule between the three sites), in the order in which the state -> box conversion reads the state back, with the optional angle defaulting to the constant 0 and all velocities starting at 0; R07.6 also requires that the reported box is the conversion of the updated state with only the confidence written afterwards.'
     " (R07.11) predict, project, update and distance of the box and the point filter, read as matrix expressions in a non-commutative normal form with transpose and inverse (P, S symmetric; solve_lower_triangular(S, B) = S^-1 B), equal the textbook recurrences m' = F m, P' = F P F^T + Q, (H m, H P H^T + R), m' = m + K (z - H m), P' = P - K S K^T with K = P H^T S^-1, d = (z - H m)^T S^-1 (z - H m)."
     ' (R07.12) initiate / predict / project / update / distance never rewrite single components of a vector or matrix in place (premise of R07.11: the expression builder does not see element writes), and the gating distance is computed by a filter built from the position / velocity weight of the track it is measured for.')
+EXPLANATION += ' R07.12 also excludes element-wise rewrites of a whole matrix (map / zip_map / abs on nalgebra matrices) in the recurrences.'
 NOT_DECIDED = ["f32 rounding of the recurrences (their real-valued matrix formulas ARE decided: R07.11)",
                "symmetric positive-definiteness of the covariance as a numeric statement (R07.11 shows P' = P - K S K^T "
                "and P' = F P F^T + Q, which preserve it in exact arithmetic)", "stationary-object prediction as a numeric statement",
@@ -875,9 +876,19 @@ def no_element_patch_rule(ctx, R):
                 for hb in [b] + all_closures(ctx.F, b):
                     for c in hb.find_calls('index_mut', 'get_mut', 'iter_mut', 'column_mut', 'row_mut', 'fill', 'apply',
                                            'swap_rows', 'swap_columns', 'set_row', 'set_column', 'fixed_view_mut',
-                                           'view_mut', 'as_mut_slice', 'get_unchecked_mut'):
+                                           'view_mut', 'as_mut_slice', 'get_unchecked_mut',
+                                           # element-wise NON-LINEAR rewrites of a whole vector / matrix (a clamp of every
+                                           # covariance entry breaks positive definiteness): same premise
+                                           'map', 'map_with_location', 'zip_map', 'zip_zip_map', 'apply_into', 'zip_apply',
+                                           'abs', 'sup', 'inf', 'simd_clamp', 'cap_magnitude', 'try_normalize',
+                                           'normalize'):
                         if c.args and c.args[0].get('k') in ('copy', 'move'):
                             ty = hb.locals[c.args[0]['pl']['l']]
+                            whole = c.name in ('map', 'map_with_location', 'zip_map', 'zip_zip_map', 'apply_into', 'zip_apply',
+                                               'abs', 'sup', 'inf', 'simd_clamp', 'cap_magnitude', 'try_normalize', 'normalize')
+                            if whole and not ('nalgebra' in c.callee and ty.lstrip('&').replace('mut ', '').startswith(
+                                    'nalgebra::Matrix')):
+                                continue
                             if 'nalgebra::Matrix' in ty or 'KalmanState' in ty:
                                 bad.append(c)
                 n += 1
